@@ -33,7 +33,9 @@ def g_domain(d) -> Dict[str, Any]:
 
 def g_sweep(sp) -> List[Dict[str, Any]]:
     names = sorted(sp["vars"], reverse=True)          # declared in the opposite of sorted order
-    sweep: Dict[str, Any] = {"parameters": {"a": sp["expr"].replace("*", " * ").replace("+", " + ").replace("-", " - ")},
+    text = {"cat": "str(int(t)) + str(int(u))", "tac": "str(int(u)) + str(int(t))"}.get(
+        sp["expr"], sp["expr"].replace("*", " * ").replace("+", " + ").replace("-", " - "))
+    sweep: Dict[str, Any] = {"parameters": {"a": text},
                              "variables": {n: g_domain(sp["vars"][n]) for n in names},
                              "mode": MODE[sp["mode"]], "broadcast": bool(sp["bc"])}
     node: Dict[str, Any] = {"processor": PROC[sp["kind"]], "derive": {"parameter_sweep": sweep}}
